@@ -151,9 +151,36 @@ pub fn direct_trips<S: Src>(s: &mut S) {
 pub fn direct_two_pair<S: Src>(s: &mut S) {
     direct(s, 4)
 }
-pub fn direct_pair<S: Src>(s: &mut S) {
-    direct(s, 5)
+/// one pair, split by WHICH two slots hold the pair (the single query over all pair hands does
+/// not finish in an hour): the ten slot pairs together cover every pair hand
+fn direct_pair_slots<S: Src>(s: &mut S, i: usize, j: usize) {
+    let (r, su, w) = draw_hand5(s);
+    assume!(s, all_distinct(&w));
+    assume!(s, r[i] == r[j]);
+    let t = sort5_desc(&r);
+    let flush = same_suit(&su);
+    assume!(s, category(&t, flush) == CAT_PAIR);
+    let h = Five::from(w);
+    check!(s, h.hand_rank_value() == ordinal(&t, flush), "C01.direct.value_is_ordinal");
 }
+
+macro_rules! direct_pair_ob {
+    ($f:ident, $i:expr, $j:expr) => {
+        pub fn $f<S: Src>(s: &mut S) {
+            direct_pair_slots(s, $i, $j)
+        }
+    };
+}
+direct_pair_ob!(direct_pair_01, 0, 1);
+direct_pair_ob!(direct_pair_02, 0, 2);
+direct_pair_ob!(direct_pair_03, 0, 3);
+direct_pair_ob!(direct_pair_04, 0, 4);
+direct_pair_ob!(direct_pair_12, 1, 2);
+direct_pair_ob!(direct_pair_13, 1, 3);
+direct_pair_ob!(direct_pair_14, 1, 4);
+direct_pair_ob!(direct_pair_23, 2, 3);
+direct_pair_ob!(direct_pair_24, 2, 4);
+direct_pair_ob!(direct_pair_34, 3, 4);
 
 /// any hand, any order (used natively by the concretiser; as a Kani harness it is the
 /// monolithic query that does not finish – registered in no tier)
